@@ -21,9 +21,11 @@
 package jsonrpc2
 
 import (
+	"bytes"
 	"encoding/json"
 	"errors"
 	"fmt"
+	"io"
 )
 
 // ID is a Request identifier.
@@ -143,7 +145,18 @@ func EncodeMessage(msg Message) ([]byte, error) {
 
 func DecodeMessage(data []byte) (Message, error) {
 	msg := wireCombined{}
-	if err := json.Unmarshal(data, &msg); err != nil {
+	// decode numbers as json.Number: an integer id above 2^53 does not survive float64
+	dec := json.NewDecoder(bytes.NewReader(data))
+	dec.UseNumber()
+	err := dec.Decode(&msg)
+	if err == nil {
+		if _, e := dec.Token(); e != io.EOF { // like json.Unmarshal: nothing may follow the value
+			if err = e; e == nil {
+				err = errors.New("invalid data after top-level value")
+			}
+		}
+	}
+	if err != nil {
 		return nil, fmt.Errorf("unmarshaling jsonrpc message: %w", err)
 	}
 	if msg.VersionTag != wireVersion {
@@ -152,8 +165,16 @@ func DecodeMessage(data []byte) (Message, error) {
 	id := ID{}
 	switch v := msg.ID.(type) {
 	case nil:
+	case json.Number:
+		// coerce the id type to int64, the spec does not allow fractional parts
+		if i, err := v.Int64(); err == nil {
+			id = Int64ID(i)
+		} else if f, err := v.Float64(); err == nil {
+			id = Int64ID(int64(f))
+		} else {
+			return nil, fmt.Errorf("invalid message id %v", v)
+		}
 	case float64:
-		// coerce the id type to int64 if it is float64, the spec does not allow fractional parts
 		id = Int64ID(int64(v))
 	case int64:
 		id = Int64ID(v)
